@@ -12,8 +12,8 @@ import (
 	"os"
 	"path/filepath"
 	"sort"
-	"strings"
 	"strconv"
+	"strings"
 	"sync"
 	"sync/atomic"
 	"time"
@@ -129,7 +129,7 @@ type RequestSpec struct {
 	NoExecLog bool `json:"-"`
 	// LinearFeed, when set, replaces the fork-free block source of the tier1 linear phase.
 	LinearFeed func(ctx context.Context, h bstream.Handler, start, stop uint64, cursor string) error `json:"-"`
-	StuckAfter      time.Duration         `json:"-"` // no job in flight and no data message for this long => stuck (default 20s)
+	StuckAfter time.Duration                                                                         `json:"-"` // no job in flight and no data message for this long => stuck (default 20s)
 	// LiveLag > 0: a live chain - above the finality point known at request time, every block n arrives as "new" with
 	// LIB n-LiveLag, followed by the "irreversible" signals of the blocks that became final.
 	LiveLag int `json:"live_lag,omitempty"`
@@ -138,8 +138,8 @@ type RequestSpec struct {
 	// CursorResolver overrides the resolver of non-final start cursors (default: fork-free chain).
 	CursorResolver func(ctx context.Context, cur *bstream.Cursor) (junction, head bstream.BlockRef, err error) `json:"-"`
 	// Preload switches the walker's background preloading of the next cached-output file (hook H8).
-	Preload bool `json:"preload,omitempty"`
-	Debug           []string              `json:"-"`
+	Preload bool     `json:"preload,omitempty"`
+	Debug   []string `json:"-"`
 }
 
 var (
@@ -231,6 +231,7 @@ type runState struct {
 	ctl       *controller
 	jobSeq    int32
 	inFlight  int32
+	sealed    bool // set under mu when Run starts to finalise the result
 	lastAct   int64
 }
 
@@ -546,7 +547,9 @@ func (w *simWorker) Work(ctx context.Context, unit stage.Unit, startBlock uint64
 			rec.Err = err.Error()
 		}
 		rs.mu.Lock()
-		rs.res.Jobs = append(rs.res.Jobs, rec)
+		if !rs.sealed { // a command started after the request returned must not touch the result any more
+			rs.res.Jobs = append(rs.res.Jobs, rec)
+		}
 		rs.mu.Unlock()
 		if err != nil {
 			return work.MsgJobFailed{Unit: unit, Error: fmt.Errorf("tier2 job failed: %w", err)}
@@ -704,6 +707,9 @@ func (c *Cluster) Run(spec RequestSpec) *Result {
 	if !spec.NoExecLog {
 		res.Execs = native.TakeLog()
 	}
+	rs.mu.Lock()
+	rs.sealed = true // from here on only this goroutine reads and writes res.Jobs
+	rs.mu.Unlock()
 	if rs.ctl != nil {
 		rs.ctl.mu.Lock()
 		order := append([]int(nil), rs.ctl.order...)
